@@ -236,6 +236,21 @@ def check_fn(rep, fn, pats, D, P, scale, layout, base_pts, kind):
             rep.violation(sig, {"D": D, "P": P, "layout": layout, "n_bad": len(bad), "first": bad[:5]})
         if not numpy.array_equal(x.data, x_before):
             rep.violation(sig + " modifies its argument", {"D": D, "P": P})
+        # the same polynomial handed over as a non-contiguous view (transposed matrix / reversed vector): an element-wise
+        # function commutes with the permutation of the elements, and the argument stays what it was
+        if layout in ("mat", "vec"):
+            try:
+                xv = x.T if layout == "mat" else x[::-1]
+                yv = call(xv)
+                if isinstance(yv, numpy.ndarray) and yv.dtype == object:
+                    yv = algopy.UTPM(numpy.stack([yy.data for yy in yv.ravel()], axis=-1).reshape(xv.data.shape))
+                want = y.T.data if layout == "mat" else y[::-1].data
+                if yv.data.shape != want.shape or not numpy.allclose(yv.data, want, rtol=1e-12, atol=0, equal_nan=True):
+                    rep.violation(sig + " of a non-contiguous view differs from the function of the contiguous polynomial", {"D": D, "P": P, "layout": layout})
+                if not numpy.array_equal(x.data, x_before):
+                    rep.violation(sig + " modifies its (view) argument", {"D": D, "P": P})
+            except Exception as e:
+                rep.violation(sig + " of a non-contiguous view raises", {"D": D, "P": P, "layout": layout, "error": repr(e)[:300]})
         rep.replayed(1)
 
 
